@@ -1,6 +1,6 @@
 SPECIFICATION Spec
-CONSTANT HNames = {"zero", "z", "xy", "gen"}
-CONSTANT KNames = {"zero", "diag", "rank1", "dense", "indefinite"}
+CONSTANT HNames = {"zero", "z", "xy", "gen", "y3"}
+CONSTANT KNames = {"zero", "diag", "rank1", "dense", "indefinite", "indefc", "rank2"}
 CONSTANT JumpNames = {"none", "damping", "two", "four"}
 CONSTANT Emit = TRUE
 INVARIANT ActsAsGksl
